@@ -792,6 +792,126 @@ theorem spec_weaker_instance :
     Spec.refsOk cs!"&#0;" = true ∧ invalidReference cs!"&#0;" false = some cs!"&#0;" := by
   decide +kernel
 
+/-! ## the whole per-event check of the reader (`readerAccepts`) -/
+
+theorem containsSub_cdend (s : Str) : containsSub cs!"]]>" s = false ↔ Spec.noCDEnd s = true := by
+  induction s with
+  | nil => simp [containsSub, Spec.noCDEnd]
+  | cons c r ih =>
+    simp only [containsSub, Spec.noCDEnd, Bool.or_eq_false_iff, Bool.and_eq_true, Bool.not_eq_true', ih]
+
+theorem containsSub_lt (s : Str) : containsSub cs!"<" s = false ↔ ∀ c ∈ s, c ≠ '<' := by
+  induction s with
+  | nil => simp [containsSub]
+  | cons c r ih =>
+    have hs : startsWith cs!"<" (c :: r) = ('<' == c) := by
+      by_cases h : '<' = c
+      · subst h; simp [startsWith, stripPrefix]
+      · have : ('<' == c) = false := by simpa using h
+        simp [startsWith, stripPrefix, this]
+    simp only [containsSub, hs, Bool.or_eq_false_iff, ih, List.mem_cons, forall_eq_or_imp, beq_eq_false_iff_ne,
+      ne_eq]
+    constructor
+    · rintro ⟨h1, h2⟩; exact ⟨fun h => h1 h.symm, h2⟩
+    · rintro ⟨h1, h2⟩; exact ⟨fun h => h1 h.symm, h2⟩
+
+theorem readerAccepts_iff (isText : Bool) (s : Str) (hd : Bool) :
+    readerAccepts isText s hd = true ↔
+      invalidReference s hd = none ∧ containsSub (if isText then cs!"]]>" else cs!"<") s = false := by
+  unfold readerAccepts
+  cases invalidReference s hd with
+  | none => simp
+  | some r => simp
+
+/-- **a Text event the reader accepts (no DOCTYPE) is exactly**: every `&` begins a Reference XML allows
+    without a DTD, and `]]>` does not occur -/
+theorem reader_text_iff (s : Str) :
+    readerAccepts true s false = true ↔ RefsOk s ∧ Spec.noCDEnd s = true := by
+  rw [readerAccepts_iff]; simp only [if_true, check_iff, containsSub_cdend]
+
+/-- **a Start / Empty event the reader accepts (no DOCTYPE) is exactly**: every `&` begins a Reference XML
+    allows without a DTD, and `<` does not occur -/
+theorem reader_tag_iff (s : Str) :
+    readerAccepts false s false = true ↔ RefsOk s ∧ ∀ c ∈ s, c ≠ '<' := by
+  rw [readerAccepts_iff]; simp only [Bool.false_eq_true, if_false, check_iff, containsSub_lt]
+
+/-- the same after a DOCTYPE, with every Name allowed as an entity name -/
+theorem reader_text_iff_doctype (s : Str) :
+    readerAccepts true s true = true ↔ RefsOkDoctype s ∧ Spec.noCDEnd s = true := by
+  rw [readerAccepts_iff]; simp only [if_true, check_iff_doctype, containsSub_cdend]
+
+theorem reader_tag_iff_doctype (s : Str) :
+    readerAccepts false s true = true ↔ RefsOkDoctype s ∧ ∀ c ∈ s, c ≠ '<' := by
+  rw [readerAccepts_iff]; simp only [Bool.false_eq_true, if_false, check_iff_doctype, containsSub_lt]
+
+/-- **bridge, no hypothesis left**: the text of a Text event the reader accepted satisfies the recogniser's
+    condition on a run of character data and references ([14] + [67]: `Spec.charDataOk`) -/
+theorem charData_of_reader (s : Str) (h : readerAccepts true s false = true) : Spec.charDataOk s = true := by
+  obtain ⟨h1, h2⟩ := (readerAccepts_iff true s false).mp h
+  exact charDataOk_of_check s h1 ((containsSub_cdend s).mp (by simpa using h2))
+
+/-- in the shape of `Svgdx.Xml.acc_text`. The text of a Text event has no `<` because quick-xml ends the event
+    there; `from_reader` does not test it again, so it is a hypothesis here -/
+theorem acc_reader_text (stk : List Str) (t rest : Str) (hne : t ≠ []) (ht : ∀ c ∈ t, c ≠ '<')
+    (h : readerAccepts true t false = true) (hr : Xml.StartsLt rest) (hacc : Xml.Acc stk rest) :
+    Xml.Acc stk (t ++ rest) :=
+  Xml.acc_text stk t rest hne ht (charData_of_reader t h) hr hacc
+
+/-- **attribute values of an accepted tag**: `tag` is the content of a Start / Empty event the reader accepted,
+    `q` is `"` or `'`, and `v` stands in it between two `q`. What remains as a hypothesis is only that `v` is THE
+    value those quotes delimit, i.e. holds no `q` itself (quick-xml's attribute scanner ends the value at the
+    first `q`; it is also what `Spec.attValue` means by the closing quote). Then [10] AttValue holds: the
+    recogniser reads `v`, then the closing quote, and goes on with what follows -/
+theorem attValue_of_reader (a v b : Str) (q : Char) (hq : q = '"' ∨ q = '\'') (hv : ∀ c ∈ v, c ≠ q)
+    (h : readerAccepts false (a ++ q :: (v ++ q :: b)) false = true) :
+    Spec.attValue q (v ++ q :: b) = some b := by
+  obtain ⟨h1, h2⟩ := (readerAccepts_iff false _ false).mp h
+  have hlt := (containsSub_lt _).mp (by simpa using h2)
+  have hout : Outside q := by
+    rcases hq with rfl | rfl
+    · exact outside_quotes.1
+    · exact outside_quotes.2.1
+  exact attValue_of_check q v b hv (fun c hc => hlt c (by simp [hc])) (check_between a v b q hout h1)
+
+/-- the value on its own would pass the reader's test for a tag -/
+theorem value_of_reader (a v b : Str) (q : Char) (hq : q = '"' ∨ q = '\'')
+    (h : readerAccepts false (a ++ q :: (v ++ q :: b)) false = true) : readerAccepts false v false = true := by
+  obtain ⟨h1, h2⟩ := (reader_tag_iff _).mp h
+  have hout : Outside q := by
+    rcases hq with rfl | rfl
+    · exact outside_quotes.1
+    · exact outside_quotes.2.1
+  exact (reader_tag_iff v).mpr
+    ⟨(refsOk_split (refsOk_split h1 a _ q hout rfl).2 v b q hout rfl).1, fun c hc => h2 c (by simp [hc])⟩
+
+/-- **completeness for [14] CharData proper** (no `&`, no `<` asked, no `]]>`): never refused, DOCTYPE or not -/
+theorem reader_accepts_charData (s : Str) (hd : Bool) (hamp : ∀ c ∈ s, c ≠ '&') (hcd : Spec.noCDEnd s = true) :
+    readerAccepts true s hd = true := by
+  apply (readerAccepts_iff true s hd).mpr
+  refine ⟨?_, by simpa using (containsSub_cdend s).mpr hcd⟩
+  have := skip_no_amp s [] hd hamp
+  simpa [invalidReference] using this
+
+/-- **completeness with references**: text made of References XML allows and of other characters, without
+    `]]>`, is accepted (this is `reader_text_iff`, right to left) -/
+theorem reader_accepts_refs (s : Str) (h : RefsOk s) (hcd : Spec.noCDEnd s = true) :
+    readerAccepts true s false = true := (reader_text_iff s).mpr ⟨h, hcd⟩
+
+/-- completeness CANNOT be stated from `Spec.charDataOk` alone: the recogniser (see its header) does not apply
+    WFC Legal Character to the value of a character reference, the reader does. Instances: `&#0;`, a surrogate -/
+theorem charDataOk_not_enough_instance :
+    Spec.charDataOk cs!"&#0;" = true ∧ readerAccepts true cs!"&#0;" false = false ∧
+    Spec.charDataOk cs!"&#xD800;" = true ∧ readerAccepts true cs!"&#xD800;" false = false := by
+  decide +kernel
+
+/-- instances of the two stray tests (the two inputs that were copied as written before the repair) -/
+theorem inst_text_cdend : readerAccepts true cs!"a ]]> b" false = false := by decide +kernel
+theorem inst_tag_lt :
+    readerAccepts false cs!"rect x=\"<\" y=\"1\" width=\"1\" height=\"1\"" false = false := by decide +kernel
+theorem inst_tag_ok :
+    readerAccepts false cs!"rect x=\"&lt;\" y=\"]]>\"" false = true := by decide +kernel
+theorem inst_text_gt_ok : readerAccepts true cs!"a ]] > b &gt; ]]" false = true := by decide +kernel
+
 /-! ## worked instances (each is ONE input, not a general statement) -/
 
 /-- instances: refused, with the text that is reported -/
